@@ -137,20 +137,20 @@ func init() {
 		spec := &mc.Spec{
 			Level: "exploration",
 			Rule: "runner set-up × {exit code, self-raised signal (raw kill, default disposition), kernel-forced fault, SIGKILL from the host while running, " +
-				"main action combined with a child that exits/is signalled before, while or after the main process ends}; oracle = README status table; " +
+				"main action combined with a child that exits/is signalled before, while or after the main process ends, main process stopped (SIGSTOP) and continued by a child before it ends}; oracle = README status table; " +
 				"non-trivial: anything but exit 0; distinct = (set-up, way of ending, observed status/exit value)",
 			Bound: map[string]any{"exit_codes": len(codes), "signals": c09terminating, "faults": faults, "setups": setups,
 				"namespace_runner_scope": "its program is pid 1 of a pid namespace: the kernel discards default-disposition signals it raises itself, so self-raised signals are not in that runner's domain (faults, host SIGKILL and exit codes are)"},
 			Assumptions: []string{"stop signals and default-ignored signals are outside the property"},
 			SplitDepth:  2,
-			Workers:     8,
+			Workers:     4,
 			Horizon:     60 * time.Second,
 		}
 		spec.Init = func() error { devnull(); return nil }
 		spec.Fini = func() { c09pool.drop(); cleanupTmp() }
 		spec.Body = func(x *mc.X) {
 			setup := x.Pick("setup", setups...)
-			kind := x.Pick("kind", "exit", "raise", "fault", "hostkill", "child")
+			kind := x.Pick("kind", "exit", "raise", "fault", "hostkill", "child", "stopcont")
 			var argv []string
 			var expS runner.Status
 			expE := -1
@@ -190,6 +190,20 @@ func init() {
 						syscall.Kill(pid, syscall.SIGKILL)
 					}()
 				}
+			case "stopcont":
+				ma := mainActs[x.Choose(len(mainActs), "main")]
+				if setup == "unshare" && ma.a == "raise" {
+					x.Outcome("skipped:namespace-init-discards-own-signals")
+					return
+				}
+				argv = []string{probe("burn"), "stopcont", ma.a, ma.v}
+				n, _ := strconv.Atoi(ma.v)
+				if ma.a == "exit" {
+					expS, expE = c09expectExit(n)
+				} else {
+					expS, expE = c09expectSignal(n)
+				}
+				desc = fmt.Sprintf("main stops itself (SIGSTOP), is continued by a child, then %s %s", ma.a, ma.v)
 			case "child":
 				w := whens[x.Choose(len(whens), "when")]
 				ca := childActs[x.Choose(len(childActs), "child")]
@@ -211,6 +225,9 @@ func init() {
 			if kind == "hostkill" && setup == "container-syncafter" {
 				// the pid given to the callback is the container init, not the program
 				x.Outcome("skipped:syncafter-has-no-program-pid")
+				return
+			}
+			if x.Dry() {
 				return
 			}
 			res, err := c09run(setup, argv, onPid)
